@@ -810,6 +810,20 @@ theorem quo_anti_den {a b b' : Int} (ha : 0 ≤ a) (hb : 0 < b) (h : b ≤ b') :
 
 /-! ## Ranged pool creation: what an accepted creation guarantees about the parameters -/
 
+/-- `(a + tx)/(b + ty)` over the box `0 ≤ a ≤ A`, `0 ≤ b ≤ B` lies between its values at the two corners -/
+theorem quo_box {tx ty a b A B : Int} (htx : 0 ≤ tx) (hty : 0 < ty) (ha : 0 ≤ a) (haA : a ≤ A) (hb : 0 ≤ b) (hbB : b ≤ B) :
+    Dec.quo tx (B + ty) ≤ Dec.quo (a + tx) (b + ty) ∧ Dec.quo (a + tx) (b + ty) ≤ Dec.quo (A + tx) ty := by
+  constructor
+  · exact Int.le_trans (quo_anti_den htx (by omega) (by omega)) (quo_mono_num htx (by omega) (by omega))
+  · exact Int.le_trans (quo_mono_num (by omega) (by omega : a + tx ≤ A + tx) (by omega))
+      (quo_anti_den (by omega) hty (by omega))
+
+/-- `(a + tx)/(b + ty)` is monotone: numerator part down, denominator part up ⇒ the quotient does not rise -/
+theorem quo_shift_mono {tx ty a b a' b' : Int} (htx : 0 ≤ tx) (hty : 0 < ty) (ha' : 0 ≤ a') (hle : a' ≤ a) (hb : 0 ≤ b)
+    (hge : b ≤ b') : Dec.quo (a' + tx) (b' + ty) ≤ Dec.quo (a + tx) (b + ty) :=
+  Int.le_trans (quo_anti_den (by omega) (by omega : 0 < b + ty) (by omega))
+    (quo_mono_num (by omega) (by omega : a' + tx ≤ a + tx) (by omega))
+
 theorem pure_ok {α : Type} {a b : α} (h : (pure a : M α) = .ok b) : a = b := Except.ok.inj h
 
 theorem validate_ok_true {minP maxP initP : Dec} (h : validateRangedPoolParams minP maxP initP = .ok true) :
